@@ -491,9 +491,23 @@ class NotEvaluable(Exception):
 
 def eval_exact(t, env=None, prims=None):
     """exact evaluation (Fractions / bools) of a closed term built from numbers, env symbols, + * **, floor, mod, int,
-    abs, comparisons, and/or/not and phi; raises NotEvaluable naming the first construct that is none of these"""
+    abs, comparisons, and/or/not and phi; raises NotEvaluable naming the first construct that is none of these.
+    With env["$memo"] = {} shared subterms (terms are DAGs) are evaluated once per environment."""
     import math
     env = env or {}
+    memo = env.get("$memo")
+    if memo is not None and isinstance(t, tuple) and t and t[0] in ("add", "mul", "call", "phi", "cmp", "idx", "pow"):
+        k_ = id(t)
+        if k_ in memo:
+            return memo[k_][1]
+        r_ = _eval_exact(t, env, prims)
+        memo[k_] = (t, r_)
+        return r_
+    return _eval_exact(t, env, prims)
+
+
+def _eval_exact(t, env, prims):
+    import math
     h = t[0]
     if h == "sym" and t in env:
         return env[t]
